@@ -397,6 +397,7 @@ pub async fn run_node<C: Config>(ctx: &Arc<Ctx>, engine: &TrackedEngine<C>, n: u
         ctx.world[n].load(Ordering::SeqCst)
     } else {
         let mut acc = node.init;
+        let mut hedges: Vec<std::pin::Pin<Box<dyn std::future::Future<Output = i64> + Send + '_>>> = Vec::new();
         for it in &node.code {
             if !Program::guard(it, acc) {
                 continue;
@@ -411,9 +412,11 @@ pub async fn run_node<C: Config>(ctx: &Arc<Ctx>, engine: &TrackedEngine<C>, n: u
                 }
                 4 => {
                     // hedged read: the first dependency is requested and polled once; if it is still
-                    // pending it is DROPPED after the other dependencies of the item were read (the
-                    // executor goes on without it: a sub-query future cancelled inside a live executor)
-                    let mut probe = Box::pin(dep_read(ctx, engine, n, x, it.deps[0]));
+                    // pending it is DROPPED when the executor has read everything else, also the later
+                    // items (a sub-query future cancelled inside a live executor, after callees that
+                    // were registered behind it)
+                    let mut probe: std::pin::Pin<Box<dyn std::future::Future<Output = i64> + Send + '_>> =
+                        Box::pin(dep_read(ctx, engine, n, x, it.deps[0]));
                     let first = futures::poll!(probe.as_mut());
                     let mut vals: Vec<Option<i64>> = vec![match first {
                         std::task::Poll::Ready(v) => Some(v),
@@ -423,7 +426,7 @@ pub async fn run_node<C: Config>(ctx: &Arc<Ctx>, engine: &TrackedEngine<C>, n: u
                         vals.push(Some(dep_read(ctx, engine, n, x, *d).await));
                         pause(ctx).await;
                     }
-                    drop(probe);
+                    hedges.push(probe);
                     for (i, (d, v)) in it.deps.iter().zip(vals).enumerate() {
                         if let Some(v) = v {
                             guard.reads.lock().push((*d, v));
@@ -478,6 +481,7 @@ pub async fn run_node<C: Config>(ctx: &Arc<Ctx>, engine: &TrackedEngine<C>, n: u
                 }
             }
         }
+        drop(hedges);
         Program::post(node, acc)
     };
 
